@@ -13,16 +13,16 @@ import (
 )
 
 type goroutine struct {
-	id     int
-	wake   chan struct{}
-	exited chan struct{}
-	done   bool
-	killed bool
-	cond   func() bool
-	desc   string
-	parked bool // runnable but pre-empted / yielded
+	id      int
+	wake    chan struct{}
+	exited  chan struct{}
+	done    bool
+	killed  bool
+	cond    func() bool
+	desc    string
+	parked  bool // runnable but pre-empted / yielded
 	yielded bool
-	pos    token.Pos
+	pos     token.Pos
 }
 
 type schedState struct {
@@ -320,6 +320,15 @@ func (ex *Exec) choose(n int, what string) int {
 type sendWait struct {
 	v     value
 	taken bool
+	sel   *selWait // set when the sender is a goroutine parked in a select
+	idx   int
+}
+
+// selWait is one blocked select statement; its send cases are registered on
+// their channels so that receivers (also non-blocking ones) can rendezvous.
+type selWait struct {
+	done   bool
+	chosen int
 }
 
 type channel struct {
@@ -332,7 +341,20 @@ type channel struct {
 
 func (ex *Exec) newChan(n int) *channel { return &channel{cap: n} }
 
+// prune drops registrations of selects that completed on another case.
+func (c *channel) prune() {
+	q := c.sendq[:0]
+	for _, s := range c.sendq {
+		if s.sel != nil && s.sel.done && !s.taken {
+			continue
+		}
+		q = append(q, s)
+	}
+	c.sendq = q
+}
+
 func (c *channel) recvReady() bool {
+	c.prune()
 	return len(c.buf) > 0 || len(c.sendq) > 0 || c.closed
 }
 
@@ -343,10 +365,12 @@ func (c *channel) sendReady() bool {
 	if c.cap > 0 {
 		return len(c.buf) < c.cap
 	}
+	c.prune()
 	return c.recvWaiting > 0 && len(c.sendq) == 0
 }
 
 func (c *channel) takeRecv() (value, bool) {
+	c.prune()
 	if len(c.buf) > 0 {
 		v := c.buf[0]
 		c.buf = c.buf[1:]
@@ -363,6 +387,10 @@ func (c *channel) takeRecv() (value, bool) {
 		s := c.sendq[0]
 		c.sendq = c.sendq[1:]
 		s.taken = true
+		if s.sel != nil {
+			s.sel.done = true
+			s.sel.chosen = s.idx
+		}
 		return s.v, true
 	}
 	return nil, false // closed
@@ -453,15 +481,37 @@ func (ex *Exec) selectOp(fr *frame, instr *ssa.Select) value {
 		if !instr.Blocking {
 			chosen = -1
 		} else {
-			for _, c := range cases {
-				if c.ch != nil && !c.send {
+			sel := &selWait{chosen: -1}
+			for i, c := range cases {
+				if c.ch == nil {
+					continue
+				}
+				if !c.send {
 					c.ch.recvWaiting++
+				} else if c.ch.cap == 0 && !c.ch.closed {
+					c.ch.sendq = append(c.ch.sendq, &sendWait{v: copyVal(c.v), sel: sel, idx: i})
 				}
 			}
-			ex.block(func() bool { return len(ready()) > 0 }, "select")
+			ex.block(func() bool { return sel.done || len(ready()) > 0 }, "select")
 			for _, c := range cases {
 				if c.ch != nil && !c.send {
 					c.ch.recvWaiting--
+				}
+			}
+			if sel.done {
+				// a receiver took one of our sends: that case completed
+				r := tuple{sel.chosen, false}
+				for _, st := range instr.States {
+					if st.Dir == types.RecvOnly {
+						r = append(r, zero(st.Chan.Type().Underlying().(*types.Chan).Elem()))
+					}
+				}
+				return r
+			}
+			sel.done = true // registrations on other channels are now stale
+			for _, c := range cases {
+				if c.ch != nil {
+					c.ch.prune()
 				}
 			}
 			rs = ready()
@@ -1057,6 +1107,12 @@ func (ex *Exec) mapOrder(m *omap) []int {
 		if m.live[i] {
 			live = append(live, i)
 		}
+	}
+	if ex.mapReverse && len(live) > 1 {
+		for i, j := 0, len(live)-1; i < j; i, j = i+1, j-1 {
+			live[i], live[j] = live[j], live[i]
+		}
+		return live
 	}
 	if !ex.mapNondet || len(live) < 2 {
 		return live
